@@ -7,6 +7,7 @@ import RtenVerif.Lemmas.AxisSel
 import RtenVerif.Lemmas.WF
 import RtenVerif.Lemmas.Broadcast
 import RtenVerif.Lemmas.Squeeze
+import RtenVerif.Lemmas.RowMajor
 
 /-!
 # C09 — Layout transformations match a reference array model
@@ -768,6 +769,108 @@ theorem WF_squeezed (v : View) (h : WF v) : WF (squeezed v) := by
   show minDataLen (v.dims.filter (fun p => p.1 != 1)) ≤ v.len
   rw [minDataLen_filter_one]
   exact h
+
+/-! ## Operations that keep the row-major element sequence -/
+
+/-- **C09.T1 merge_axes**: merging axes is a C-order reshape to the (layout dependent) shape the
+code chose — same elements in the same row-major order, same element count.
+(Built on C07's `mergeAxes_rowMajor`.) -/
+theorem c09_merge_axes (v : View) (s : Nat → α) :
+    (denote v s).reshape (sizes (mergedAxes v).dims) = some (denote (mergedAxes v) s) := by
+  have hrm : Iter.rowMajor (mergeAxes v.dims) = Iter.rowMajor v.dims := by
+    rw [mergeAxes_eq]; exact Iter.mergeAxes_rowMajor v.dims
+  have hn : numel (sizes (mergeAxes v.dims)) = numel (sizes v.dims) := by
+    rw [← rowMajor_length', ← rowMajor_length', hrm]
+  unfold NArr.reshape
+  have hsh : (denote v s).shape = sizes v.dims := rfl
+  rw [hsh]
+  show (if numel (sizes (mergeAxes v.dims)) = numel (sizes v.dims) then _ else _) = _
+  rw [if_pos hn]
+  congr 1
+  have hd := denote_data (mergedAxes v) s
+  have hd0 := denote_data v s
+  show (⟨sizes (mergeAxes v.dims), (denote v s).data⟩ : NArr α) = denote (mergedAxes v) s
+  have : denote (mergedAxes v) s = ⟨sizes (mergeAxes v.dims), (denote (mergedAxes v) s).data⟩ := rfl
+  rw [this, hd, hd0]
+  show _ = (⟨_, (Iter.rowMajor (mergeAxes v.dims)).map (fun o => s (v.base + o))⟩ : NArr α)
+  rw [hrm]
+
+/-- A freshly allocated contiguous copy holds exactly the array it was made from
+(`to_vec` + `from_shape`; used by `to_contiguous`, `reshaped`, `slice_copy`). -/
+theorem c09_copy_roundtrip (A : NArr Nat) (hlen : A.data.length = numel A.shape) :
+    (TState.ofArr A).arr = A := by
+  unfold TState.ofArr TState.arr
+  have hd := denote_data (⟨0, A.data.length, contigDims A.shape⟩ : View)
+    (fun i => A.data.getD i 0)
+  have hsz : (denote (⟨0, A.data.length, contigDims A.shape⟩ : View)
+      (fun i => A.data.getD i 0)).shape = A.shape := sizes_contigDims A.shape
+  simp only [] at hd
+  rw [rowMajor_contigDims, ← hlen, map_getD_range_list] at hd
+  cases A with
+  | mk shape data =>
+    simp only at hd hsz ⊢
+    have : ∀ B : NArr Nat, B.shape = shape → B.data = data → B = ⟨shape, data⟩ := by
+      intro B h1 h2; cases B; simp_all
+    exact this _ hsz hd
+
+theorem denote_data_length {β : Type} (v : View) (s : Nat → β) :
+    (denote v s).data.length = numel (denote v s).shape := by
+  simp [denote, NArr.ofFn, idxs_length]
+
+/-- **C09.T1 to_contiguous**: the same array, whether the data is borrowed (already contiguous)
+or copied. -/
+theorem c09_to_contiguous (t : TState) : (toContiguous t).arr = t.arr := by
+  unfold toContiguous
+  split
+  · rfl
+  · exact c09_copy_roundtrip _ (denote_data_length _ _)
+
+/-- **C09.T1 reshaped** (view when contiguous, copy otherwise): `a.reshape(shape)` in C order, or
+both fail (element count differs: panic). -/
+theorem c09_reshaped (t : TState) (shape : List Nat) :
+    (reshaped t shape).map TState.arr =
+      match t.arr.reshape shape with
+      | some B => .ok B
+      | none => .error .panic := by
+  unfold reshaped NArr.reshape
+  have hsh : t.arr.shape = sizes t.view.dims := rfl
+  rw [hsh]
+  by_cases hn : numel shape = numelD t.view.dims
+  · rw [if_neg (by omega)]
+    have hn' : numel shape = numel (sizes t.view.dims) := hn
+    rw [if_pos hn']
+    simp only []
+    by_cases hc : isContiguous t.view.dims = true
+    · rw [if_pos hc]
+      simp only [Except.map]
+      congr 1
+      -- both layouts enumerate offsets 0..n
+      have h1 := denote_data (⟨t.view.base, t.view.len, contigDims shape⟩ : View)
+        (fun i => t.store.getD i 0)
+      have h2 := denote_data t.view (fun i => t.store.getD i 0)
+      simp only [] at h1
+      rw [rowMajor_contigDims, hn'] at h1
+      rw [rowMajor_contiguous _ hc] at h2
+      have hsz : (denote (⟨t.view.base, t.view.len, contigDims shape⟩ : View)
+          (fun i => t.store.getD i 0)).shape = shape := sizes_contigDims shape
+      have : ∀ B : NArr Nat, B.shape = shape → B.data = t.arr.data → B = ⟨shape, t.arr.data⟩ := by
+        intro B h1 h2; cases B; simp_all
+      apply this
+      · exact hsz
+      · show (denote _ _).data = (denote _ _).data
+        rw [h1, h2]
+    · rw [if_neg hc]
+      simp only [Except.map]
+      congr 1
+      have := c09_copy_roundtrip ⟨shape, t.arr.data⟩ (by
+        show t.arr.data.length = numel shape
+        rw [hn']
+        exact denote_data_length _ _)
+      exact this
+  · rw [if_pos hn]
+    have hn' : ¬ numel shape = numel (sizes t.view.dims) := hn
+    rw [if_neg hn']
+    rfl
 
 /-! ## T2: chains of operations compose -/
 
